@@ -4,7 +4,7 @@ import "strconv"
 
 // FuncOps are the op names of the function-plumbing / error-chaining family (C15, C16).
 var FuncOps = []string{
-	"curry", "flip", "apply", "uncurry", "uncurrycurry", "tuple",
+	"curry", "flip", "apply", "uncurry", "uncurrycurry", "tuple", "nest3", "nest4",
 	"compose", "fmape", "joine", "bind", "traverse", "toerror",
 }
 
